@@ -171,6 +171,24 @@ def gen_file(rng, sheets, date1904=False):
                 sp.sb.put(s, 4, r, t='e', v=code)
                 sp.expect[key] = {'kind': 'const', 'value': ('err', code)}
                 sp.wbcells[key] = ref.Err(code)
+        # a time of day (h:mm) and a duration ([h]:mm:ss): numbers as far as
+        # the file is concerned.  How the loaded model REPRESENTS them is not
+        # stated (no verdict on the constant); formulas that read them must
+        # evaluate as over the stored numbers.
+        if rng.random() < 0.5:
+            for r, style, v in ((8, '2', rng.choice([0.5, 0.25, 0.75])),
+                                (9, '3', rng.choice([1.5, 2.25, 0.125]))):
+                sp.sb.put(s, 4, r, v=repr(v), s=style)
+                sp.expect[(s, 4, r)] = {'kind': 'const', 'value': None}
+                sp.wbcells[(s, 4, r)] = v
+                ast = ('bin', '*', ('ref', None, 4, r, False, False),
+                       ('lit', 24, '24'))
+                sp.sb.put_formula(s, 5, r, ref.render(ast))
+                sp.expect[(s, 5, r)] = {'kind': 'formula',
+                                        'formula': ref.render(ast),
+                                        'cached': None}
+                sp.wbcells[(s, 5, r)] = ('f', ast)
+            sp.forms.add('time')
         for r, form in ((5, 's'), (6, 'inlineStr'), (7, 'str')):
             if rng.random() < 0.5:
                 continue
@@ -356,7 +374,10 @@ def run(ctx):
                 if c is None:
                     problems.append(f'{a}: stored cell missing')
                     continue
-                if exp['kind'] == 'const':
+                if exp['kind'] == 'const' and exp['value'] is None:
+                    if c.formula is not None:
+                        problems.append(f'{a}: constant loaded as formula')
+                elif exp['kind'] == 'const':
                     got = monitors.norm(c.value)
                     want = exp['value']
                     ok = got == want or (want[0] == 'err' and got ==
